@@ -108,10 +108,32 @@ def regenerate(res):
     return rc == 0, out
 
 
+_LOCK_DEPTH = [0]
+
+
+class BuildLock:
+    """One build (translator -> make -> Properties compile -> extraction) at a time across all checks; re-entrant."""
+
+    def __enter__(self):
+        if _LOCK_DEPTH[0] == 0:
+            self.f = open(os.path.join(COQ, '.lock'), 'w')
+            fcntl.flock(self.f, fcntl.LOCK_EX)
+            _LOCK_DEPTH.append(self.f)
+        _LOCK_DEPTH[0] += 1
+        return self
+
+    def __exit__(self, *a):
+        _LOCK_DEPTH[0] -= 1
+        if _LOCK_DEPTH[0] == 0:
+            f = _LOCK_DEPTH.pop()
+            fcntl.flock(f, fcntl.LOCK_UN)
+            f.close()
+        return False
+
+
 def coq_make(vfiles, jobs=8, timeout=3000):
     """Build the .vo of each listed file (and what it depends on) with coq_makefile's Makefile."""
-    with open(os.path.join(COQ, '.lock'), 'w') as lk:
-        fcntl.flock(lk, fcntl.LOCK_EX)
+    with BuildLock():
         # _CoqProject lists every .v under coq/ (kept sorted so the Makefile is regenerated only on change)
         vs = []
         for root, _, files in os.walk(COQ):
@@ -293,48 +315,54 @@ def standard_check(mod, tier, seed, replay=None):
     broken = []
 
     # 1. proof side
-    bad = scan_forbidden()
-    if bad:
-        proof_ok = False
-        broken.append('forbidden tokens in development: ' + '; '.join(bad[:5]))
-    gen_ok, gen_out = regenerate(res)
-    if not gen_ok:
-        proof_ok = False
-        broken.append('translator: ' + gen_out[-300:])
-    prop_v = mod.COQ_FILES[-1]
-    ok, out = coq_make([f for f in mod.COQ_FILES], timeout=getattr(mod, 'COQ_TIMEOUT', 2400))
-    if not ok:
-        proof_ok = False
-        m = re.search(r'File "\./([^"]+)", line (\d+)[^\n]*\n(Error:[^\n]*(?:\n[^\n]*){0,6})', out)
-        broken.append('coq build failed: ' + (('%s line %s: %s' % (m.group(1), m.group(2), m.group(3))) if m else out[-600:]))
-    if ok:
-        pok, thms, pout = check_properties_file(prop_v, getattr(mod, 'ALLOWED_AXIOMS', []), res)
-        if not pok:
+    _bl = BuildLock()
+    _bl.__enter__()
+    try:
+        bad = scan_forbidden()
+        if bad:
             proof_ok = False
-            broken.append('Properties file: ' + pout[-400:])
-    if proof_ok and tier == 'thorough' and not replay:
-        # independent re-check of the compiled property file and everything it depends on
-        lib = 'Verif.' + prop_v[:-2].replace('/', '.')
-        rc_c, out_c = sh('timeout 1700 coqchk -o -silent -Q . Verif %s' % lib, cwd=COQ, timeout=1730)
-        summ = out_c[out_c.find('CONTEXT SUMMARY'):] if 'CONTEXT SUMMARY' in out_c else out_c[-600:]
-        res.trusted.append('coqchk -o %s: exit %d; %s' % (lib, rc_c, ' '.join(summ.split())[:900]))
-        if rc_c != 0:
+            broken.append('forbidden tokens in development: ' + '; '.join(bad[:5]))
+        gen_ok, gen_out = regenerate(res)
+        if not gen_ok:
             proof_ok = False
-            broken.append('coqchk failed: ' + out_c[-300:])
-    res.trusted.insert(0, 'Coq 8.16.1 kernel + VM (vm_compute); native_compute not used')
-    res.trusted.append(getattr(mod, 'EXTRACTION_TB', EXTRACTION_TB))
-    if getattr(mod, 'ALLOWED_AXIOMS', None):
-        res.trusted.append('standard-library axioms allowed for this property: ' + ', '.join(mod.ALLOWED_AXIOMS))
-    res.trusted.append('translator/gen_all.py (tables regenerated from /repo each run) and harness/*.py; '
-                       'implementation adapter calls the public API with PYTHONPATH=/repo and a fresh BCL_DATA_DIR')
+            broken.append('translator: ' + gen_out[-300:])
+        prop_v = mod.COQ_FILES[-1]
+        ok, out = coq_make([f for f in mod.COQ_FILES], timeout=getattr(mod, 'COQ_TIMEOUT', 2400))
+        if not ok:
+            proof_ok = False
+            m = re.search(r'File "\./([^"]+)", line (\d+)[^\n]*\n(Error:[^\n]*(?:\n[^\n]*){0,6})', out)
+            broken.append('coq build failed: ' + (('%s line %s: %s' % (m.group(1), m.group(2), m.group(3))) if m else out[-600:]))
+        if ok:
+            pok, thms, pout = check_properties_file(prop_v, getattr(mod, 'ALLOWED_AXIOMS', []), res)
+            if not pok:
+                proof_ok = False
+                broken.append('Properties file: ' + pout[-400:])
+        if proof_ok and tier == 'thorough' and not replay:
+            # independent re-check of the compiled property file and everything it depends on
+            lib = 'Verif.' + prop_v[:-2].replace('/', '.')
+            rc_c, out_c = sh('timeout 1700 coqchk -o -silent -Q . Verif %s' % lib, cwd=COQ, timeout=1730)
+            summ = out_c[out_c.find('CONTEXT SUMMARY'):] if 'CONTEXT SUMMARY' in out_c else out_c[-600:]
+            res.trusted.append('coqchk -o %s: exit %d; %s' % (lib, rc_c, ' '.join(summ.split())[:900]))
+            if rc_c != 0:
+                proof_ok = False
+                broken.append('coqchk failed: ' + out_c[-300:])
+        res.trusted.insert(0, 'Coq 8.16.1 kernel + VM (vm_compute); native_compute not used')
+        res.trusted.append(getattr(mod, 'EXTRACTION_TB', EXTRACTION_TB))
+        if getattr(mod, 'ALLOWED_AXIOMS', None):
+            res.trusted.append('standard-library axioms allowed for this property: ' + ', '.join(mod.ALLOWED_AXIOMS))
+        res.trusted.append('translator/gen_all.py (tables regenerated from /repo each run) and harness/*.py; '
+                           'implementation adapter calls the public API with PYTHONPATH=/repo and a fresh BCL_DATA_DIR')
 
-    # 2. correspondence
-    exe = None
-    if getattr(mod, 'DRIVER', None):
-        exe, dout = build_driver(mod.DRIVER)
-        if exe is None:
-            proof_ok = False
-            broken.append('driver build failed: ' + dout[-400:])
+        # 2. correspondence
+        exe = None
+        if getattr(mod, 'DRIVER', None):
+            exe, dout = build_driver(mod.DRIVER)
+            if exe is None:
+                proof_ok = False
+                broken.append('driver build failed: ' + dout[-400:])
+
+    finally:
+        _bl.__exit__(None, None, None)
     cases = []
     if replay:
         rp = json.load(open(replay))
